@@ -400,6 +400,8 @@ def harnesses(tier):
     for nl, nr, lv in shapes:
         for fa, fv in (((False, True),) if q else ((True, True), (False, True), (False, False))):
             hs.append(Harness(f"1d.{nl}.{nr}.L{lv}.fa{int(fa)}.fv{int(fv)}", h_1d, {"nl": nl, "nr": nr, "levels": lv, "fa": fa, "fv": fv}, max_paths=6000, batch=4))
+    if q:  # two successive refinements with an infinite-variation driver (the coarse diffusion coefficient changes with the level)
+        hs.append(Harness("1d.1.1.L2.fa0.fv0", h_1d, {"nl": 1, "nr": 1, "levels": 2, "fa": False, "fv": False}, max_paths=6000, batch=4))
     for par in ("ee", "oo", "oe", "eo"):
         for w in range(len(INCS[par])):
             if q and par in ("oe", "eo") and w > 0:
@@ -416,7 +418,7 @@ EXPECT = ["C03.coarse_rate_preserved.1d", "C03.even_increment_copied_unchanged",
 
 
 def main(tier):
-    bounds = {"1d": "coarse grids up to 2+1 points, 1 level (quick); up to 3+3 points, 2 levels (thorough); finite/infinite activity and variation",
+    bounds = {"1d": "coarse grids up to 2+1 points, 1 level and 1+1 points, 2 levels, infinite variation (quick); up to 3+3 points, 2 levels (thorough); finite/infinite activity and variation",
               "copula": "2-d, coarse 3x3 -> fine 5x5, every parity class of the fine increment",
               "outside": "CouplingSDE (its jump coupling is the one checked here; its Euler recursion is C16); 3-d coupling; vector-returning samplers"}
     return run_check(PID, tier, harnesses(tier), expect=EXPECT, bounds=bounds,
